@@ -14,6 +14,7 @@
 import ApiFu.C05.R.Lemmas
 import ApiFu.C05.R.LemmasSpec
 import ApiFu.C05.R.LemmasStatic
+import ApiFu.C05.R.Nested
 
 namespace ApiFu.C05.R
 open ApiFu.C05 (Scalar GoVal Lit Parse CV Vars containsVar noDupNames collect collect_lookup_find collect_lookup_mem
@@ -418,6 +419,27 @@ theorem static_agrees (Pm : Params) (env : Env) (hh : HookOK Pm)
     validateCoercion Pm env fuel T l allow = true ↔ ∃ x, coerceLit Pm env [] fuel T l allow = some x := by
   rw [validate_eq_coerces Pm env hh hooksTotal fuel T l allow hc hd, Option.isSome_iff_exists]
 
+/-! ## nested_variable -/
+
+/-- **nested_variable.** Over recursive input types, hooked types and custom scalars: a literal with
+    variables anywhere inside it (list items, fields of — possibly recursive — input objects, a single
+    object given for a list, any depth) coerces exactly like the literal in which every variable is
+    replaced by the value the client supplied for it (`inline`; an unset variable is a null item /
+    an absent field) — the same Go value (the same hook results), or both fail. `NestedT … NestedObj`
+    says each variable's runtime value is the variable route's coercion of the supplied value at the
+    type of its position (`VarStandsFor`, with the item side condition explained there); the fuel
+    only has to cover the depth of the inlined literal. -/
+theorem nested_variable (Pm : Params) (S : Spec.CustomSpec) (cf : String → CV → Bool) (env : Env)
+    (hh : HookOK Pm) (hc : CoercersAgree Pm S cf) (F : Nat) (σ : ApiFu.C05.Supplied) (vars : Vars) (T : Ty) (l : Lit)
+    (h : NestedT (VarStandsFor Pm cf env F σ vars)
+      (fun n lfs => NestedObj (VarStandsFor Pm cf env F σ vars) env F n lfs) T false l)
+    (hd : litDepth (ApiFu.C05.inline σ l) ≤ F) :
+    coerceLit Pm env vars F T l true = coerceLit Pm env [] F T (ApiFu.C05.inline σ l) true := by
+  let C : Ctx := { Pm := Pm, S := S, cf := cf, env := env, hh := hh, hc := hc }
+  have := nestedT_eq C F σ vars F (Nat.le_refl F) _
+    (fun n lfs hK hd' => nestedObj_eq C F σ vars F (Nat.le_refl F) n lfs hK hd') T l false h hd
+  simpa [coerceLit] using this
+
 /-! ## Non-vacuity: a recursive type, a hook, Go kinds -/
 
 /-- `input In { c: [In], e: In, x: Int! = 5 }` with a hook on `H { y: Int }`. -/
@@ -446,6 +468,13 @@ example : coerceLit exParams exEnv [] 1 (.ref "H") (.obj [("y", .int 2)]) true
 example : coerceLit exParams exEnv [] 1 (.ref "H") (.obj [("y", .null)]) true = none := by rfl
 -- … which validation cannot know (necessity of `hooksTotal` in `static_agrees`)
 example : validateCoercion exParams exEnv 1 (.ref "H") (.obj [("y", .null)]) true = true := by rfl
+-- a variable inside a recursive object inside a list: `{c: [{x: $v}, $w]}` with v ↦ 7, w unset
+example : coerceLit exParams exEnv [("v", .int 7)] 3 (.ref "In")
+      (.obj [("c", .list [.obj [("x", .var "v")], .var "w"])]) true
+    = coerceLit exParams exEnv [] 3 (.ref "In")
+      (ApiFu.C05.inline [("v", .int 7)] (.obj [("c", .list [.obj [("x", .var "v")], .var "w"])])) true := by rfl
+example : ApiFu.C05.inline [("v", .int 7)] (.obj [("c", .list [.obj [("x", .var "v")], .var "w"])])
+    = .obj [("c", .list [.obj [("x", .int 7)], .null])] := by rfl
 -- Go kinds: no wrap-around, no truncation
 example : scalarVar (fun _ => none) .int (.intk .u64 18446744073709551615) = none := by rfl
 example : scalarVar (fun _ => none) .longInt (.intk .u64 9007199254740992) = none := by rfl
